@@ -61,6 +61,9 @@ type State struct {
 	exited   bool
 	procM    *procModel
 	opts     map[string]bool
+	nowMs    Term            // the instant time.Now reports on this path (one instant per path: the clock is frozen)
+	tzHours  Term            // offset of time.Local from UTC in hours (a symbolic whole number in [-12, 14])
+	durMs    map[string]Term // durations made by time.Since/Sub: their length in milliseconds, by term text
 }
 
 func newState() *State {
@@ -81,6 +84,14 @@ func (s *State) clone() *State {
 		builders: make(map[int]StrV, len(s.builders)),
 		instrs:   s.instrs,
 		stdinPos: s.stdinPos,
+		nowMs:    s.nowMs,
+		tzHours:  s.tzHours,
+	}
+	if s.durMs != nil {
+		n.durMs = map[string]Term{}
+		for k, v := range s.durMs {
+			n.durMs[k] = v
+		}
 	}
 	if s.procM != nil {
 		c := *s.procM
